@@ -75,6 +75,7 @@ def run(ck):
     ck.rule("C09.R3", "Layered ordering: inner first for notifications, outer first for vetoes", floor=16)
     ck.rule("C09.R4", "Dispatch::event delivers iff event_enabled", floor=1)
     ck.rule("C09.R0", "wrapper impls discovered", floor=18)
+    ck.rule("C09.R7", "a None layer is transparent for the max-level hint, also after it was swapped in by a reload (as C08.R7)", floor=1)
     ck.rule("C09.R6", "reload::Subscriber takes its lock with a blocking read on every call and forwards under it (as C12.R3)", floor=20)
     ck.rule("C09.R5", "Layered::pick_interest asks the inner value on every path except the outer `never` veto", floor=1)
 
@@ -86,6 +87,9 @@ def run(ck):
     # progress silently drops the notification for the wrapped layer (C12.R3's per-call blocking lock rule, instantiated)
     from rules import C12
     C12.r3(ck, F, rid="C09.R6")
+    # a None layer must be as good as an absent one also for the level hint, evaluated on the live layers (C08.R7)
+    from rules import C08
+    C08.r7(ck, F, rid="C09.R7")
 
 
 RIDS = {"R0": "C09.R0", "R1": "C09.R1", "R2": "C09.R2", "R3": "C09.R3"}
